@@ -104,7 +104,7 @@ func checkC02(run *h.Run) {
 				order = append(order, name)
 				serveToo := sp.Name == "P1"
 				st := runSweep(run, sp, func(w *worker, t rm.Table, p *rm.Parsed, st *sweepStats) {
-					b := rs.Build(t, rs.BuildOpt{Router: router})
+					b := rs.Build(t, rs.BuildOpt{Router: router, Switched: trace})
 					if b.Panic != "" {
 						atomic.AddInt64(&st.buildPanics, 1)
 						run.Violate("construction-panic", "", fmt.Sprintf("building %v panics: %s", t, b.Panic),
@@ -127,15 +127,15 @@ func checkC02(run *h.Run) {
 							outcomes.Add(fmt.Sprintf("%d/%d/%v", o.Status, len(o.Invoked), o.Allow))
 						}
 						if why != "" {
-							rc := routingCase{Sweep: sp.Name, Router: router.String(), Table: t, Req: w.reqs[qi], Observed: o, Expected: an.Exps, Tier: run.Tier, Lite: trace && run.Tier == "quick", ReqIndex: qi}
+							rc := routingCase{Sweep: sp.Name, Router: router.String(), Table: t, Req: w.reqs[qi], Observed: o, Expected: an.Exps, Tier: run.Tier, Lite: trace && run.Tier == "quick", ReqIndex: qi, Switched: trace}
 							qi := qi
 							run.ViolateH("outcome/"+router.String(), "", fmt.Sprintf("[%s trace=%v] %v ; %v : %s", router, trace, t, w.reqs[qi], why), rc, func() bool {
-								b2 := rs.Build(t, rs.BuildOpt{Router: router})
+								b2 := rs.Build(t, rs.BuildOpt{Router: router, Switched: trace})
 								o2 := b2.Do(w.reqs[qi].HTTP(), h.NewRec(), false)
 								w2, _ := judgeC02(p, w.mreqs[qi], router, o2)
 								return w2 != ""
 							}, func() bool {
-								b3 := rs.Build(t, rs.BuildOpt{Router: router})
+								b3 := rs.Build(t, rs.BuildOpt{Router: router, Switched: trace})
 								var o3 rs.Outcome
 								for k := 0; k <= qi; k++ {
 									o3 = b3.Do(w.reqs[k].HTTP(), h.NewRec(), false)
@@ -173,7 +173,7 @@ func checkC02(run *h.Run) {
 	run.Cov["distinct_outcomes"] = outcomes.Len()
 	run.Cov["cases_with_several_maximal_roots_accepted_any"] = multiMax
 	run.Cov["exhaustive"] = true
-	run.Cov["rule"] = "E1: full product of the stated alphabets per sweep (P1 single-route tables x all paths x methods x 2 header combos, also through ServeHTTP for no-panic/at-most-once; P2 all 2-route tables over halved alphabets; H1/H2 1-2 routes x full Consumes/Produces/If/Content-Type/Accept/body product; X2 2-route cross sweep; thorough adds P3 3-route tables), both routers, trace off and on. A state is one (table, request) case, a transition one real dispatch on a fresh real container. Non-trivial: the request path matches a route template or misses it by at most one token/segment."
+	run.Cov["rule"] = "E1 (the trace-on pass runs on containers whose router was switched first - the other router configured, then this one): full product of the stated alphabets per sweep (P1 single-route tables x all paths x methods x 2 header combos, also through ServeHTTP for no-panic/at-most-once; P2 all 2-route tables over halved alphabets; H1/H2 1-2 routes x full Consumes/Produces/If/Content-Type/Accept/body product; X2 2-route cross sweep; thorough adds P3 3-route tables), both routers, trace off and on. A state is one (table, request) case, a transition one real dispatch on a fresh real container. Non-trivial: the request path matches a route template or misses it by at most one token/segment."
 	run.Assume = []string{"reference model of DESIGN.md §5 (printed admit rules) is the specification", "alphabets bound the claim: templates <= 3 tokens, <= 3 routes, listed segments/headers",
 		"RouterJSR311: best root unspecified when a variable root competes -> any claiming root accepted"}
 }
